@@ -519,7 +519,12 @@ class LossScenario(explore.Scenario):
         return viol
 
     def canon(self, w):
-        return (tuple(sorted(w.used)), w.lost)
+        c = w.cw.conn
+        h = getattr(c, 'objHandler', None)
+        sizes = (len(getattr(c, '_dcCallbacks', ()) or ()),
+                 len(getattr(c, '_pendingCalls', ()) or ()),
+                 len(getattr(h, '_weakProxies', ()) or ()))
+        return (tuple(sorted(w.used)), w.lost, sizes)
 
     def nontrivial(self, hist):
         return len(hist) > 2
